@@ -198,7 +198,7 @@ pub fn draw_payload(chunk: usize, allow_failure: bool) -> Payload {
     }
 }
 
-fn fail_point(len: usize, chunk: usize) -> usize {
+pub fn fail_point(len: usize, chunk: usize) -> usize {
     // after every chunk boundary +-1 byte, or anywhere
     let k = range(0, 3) as usize * chunk;
     let p = match simkernel::choose(4) {
@@ -251,7 +251,7 @@ fn raw_call(s: &mut TcpStream, id: u64, path: &str, body: Vec<u8>) -> io::Result
     }
 }
 
-fn unzstd(data: &[u8]) -> Option<Vec<u8>> {
+pub fn unzstd(data: &[u8]) -> Option<Vec<u8>> {
     zstd::stream::decode_all(data).ok()
 }
 
@@ -444,7 +444,7 @@ fn c09_pull(case: &Case) {
 
 // =========================================================================== C10
 
-fn private_dir() -> PathBuf {
+pub fn private_dir() -> PathBuf {
     static N: std::sync::atomic::AtomicU64 = std::sync::atomic::AtomicU64::new(0);
     let n = N.fetch_add(1, std::sync::atomic::Ordering::SeqCst);
     let base = std::env::var("VERIF_TMP").unwrap_or_else(|_| "/dev/shm".to_string());
@@ -522,7 +522,7 @@ enum FileApi {
     Trailer,
 }
 
-fn dest_state(path: &Path) -> Option<Vec<u8>> {
+pub fn dest_state(path: &Path) -> Option<Vec<u8>> {
     std::fs::read(path).ok()
 }
 
